@@ -599,7 +599,7 @@ class Executor:
     def ite_select(self, elems, iv: BV) -> V:
         r = elems[-1]
         for i in range(len(elems) - 2, -1, -1):
-            c = iv.e == (z3.IntVal(i) if z3.is_int(iv.e) else z3.BitVecVal(i, iv.bits))
+            c = iv.e == (z3.IntVal(i) if z3.is_int(iv.e) else z3.BitVecVal(i, iv.e.size()))
             r = self.ite(c, elems[i], r)
         return r
 
@@ -685,7 +685,7 @@ class Executor:
                     elems[n] = self._set(st, elems[n], rest, nv)
                 else:
                     for i in range(len(elems)):
-                        c = iv.e == (z3.IntVal(i) if z3.is_int(iv.e) else z3.BitVecVal(i, iv.bits))
+                        c = iv.e == (z3.IntVal(i) if z3.is_int(iv.e) else z3.BitVecVal(i, iv.e.size()))
                         elems[i] = self.ite(c, self._set(st, elems[i], rest, nv), elems[i])
             out = Arr(tuple(elems))
             return VecV(out) if isvec else out
